@@ -812,7 +812,15 @@ M("c11-rsub-order", "C11", EXPR,
         return BinaryOp(_ensure_expr(other), self, "-")''', '''    def __rsub__(self, other: float | int) -> BinaryOp:
         return BinaryOp(self, _ensure_expr(other), "-")''', "R11.1", "Expression.__rsub__")
 M("c11-vector-rtruediv-order", "C11", VECTORS,
-  '''            [BinaryOp(_ensure_expr(other), v, "/") for v in self._variables]''', '''            [BinaryOp(v, _ensure_expr(other), "/") for v in self._variables]''', "R11.1", "VectorVariable.__rtruediv__")
+  '''            [BinaryOp(lhs, v, "/") for lhs, v in zip(lefts, self._variables)]''', '''            [BinaryOp(v, lhs, "/") for lhs, v in zip(lefts, self._variables)]''', "R11.1", "VectorVariable.__rtruediv__")
+# the defect repaired by fix b74a3a0, re-introduced: the reflected operator wraps the whole right-hand array per element
+M("c11-reflected-array-broadcast-returns", "C11", VECTORS,
+  '''        lefts = _reflected_operands(other, len(self._variables), "-")
+        return VectorExpression(
+            [BinaryOp(lhs, v, "-") for lhs, v in zip(lefts, self._variables)]
+        )''', '''        return VectorExpression(
+            [BinaryOp(_ensure_expr(other), v, "-") for v in self._variables]
+        )''', "R11.2", "VectorVariable.__rsub__")
 M("c11-matrix-sub-literal", "C11", MATRICES,
   '''        """Element-wise subtraction: X - Y or X - scalar or X - array."""
         return _matrix_binary_op(self, other, "-")''', '''        """Element-wise subtraction: X - Y or X - scalar or X - array."""
